@@ -130,6 +130,22 @@ Theorem C14_from_dict_safe : forall (dd : dmapper) (calc : info -> did) (next : 
 Proof. exact from_dict_safe. Qed.
 Print Assumptions C14_from_dict_safe.
 
+(* from_dict on ANY input, when it returns a tree: one node per item dict, nested
+   and ordered like the items; each node's data is what the deserialisation step
+   makes of the item's "data", its data_id the item's "data_id" entry or, without
+   one, calc_data_id of that data (relational spec [built]) *)
+Theorem C14_from_dict_mirrors_input : forall (dd : dmapper) (calc : info -> did) (next : nat) (obj : list jv) (f : forest),
+  from_dict dd calc next obj = inl f -> Forall2 (built dd calc) (map parse obj) f.
+Proof. exact from_dict_built. Qed.
+Print Assumptions C14_from_dict_mirrors_input.
+
+(* Node.from_dict on a childless node of an existing tree (any calc_data_id
+   hook, any input): a tree with unique sibling ids stays one *)
+Theorem C14_node_from_dict_safe : forall dd calc next (f : forest) target obj f',
+  sibuniq_f f -> node_from_dict dd calc next f target obj = inl f' -> sibuniq_f f'.
+Proof. exact node_from_dict_safe. Qed.
+Print Assumptions C14_node_from_dict_safe.
+
 (* which inputs are refused: for inputs whose items are all well formed (data
    readable, data_id entry usable), from_dict succeeds iff no two sibling items
    have one effective id (the data_id entry or, without one, calc_data_id of the
